@@ -185,11 +185,14 @@ ProxyNames(W, head, blocks, req) == TsdbNames(W, head, req) \cup BucketNames(W, 
 
 (* ---- LabelValues(n) ---- *)
 TsdbValues(W, src, req, n) ==
-    IF n \in req.rl \/ Contradicts(req.ms, src.ext) \/ ~SrcOverlaps(W, src, req.mint, req.maxt) THEN {}
+    IF n \in req.rl \/ Contradicts(req.ms, src.ext) THEN {}
     ELSE LET ms1 == FilterExt(req.ms, src.ext) IN
          IF n \in DOMAIN src.ext
-           THEN IF ms1 = {} \/ SelectStored(W, src, ms1, req.mint, req.maxt) # {} THEN {src.ext[n]} ELSE {}
-           ELSE StoredValues(MatchStored(src, ms1), n)
+           THEN (* external label: its value, if no other matcher is left (not even the time range
+                   is looked at) or some series matches the rest within the range *)
+                IF ms1 = {} \/ SelectStored(W, src, ms1, req.mint, req.maxt) # {} THEN {src.ext[n]} ELSE {}
+           ELSE IF ~SrcOverlaps(W, src, req.mint, req.maxt) THEN {}
+                ELSE StoredValues(MatchStored(src, ms1), n)                 \* head: not time filtered
 
 NonEmptyMatcher(n) == [n |-> n, t |-> "NEQ", k |-> "set", alts |-> <<"">>]
 HasNameEq(ms) == \E m \in ms : m.n = "__name__" /\ m.t = "EQ"
